@@ -170,9 +170,12 @@ func scenOffsets(r *run) {
 			defer wg.Done()
 			for _, op := range ops {
 				if op.ThinkUs > 0 {
-					time.Sleep(time.Duration(op.ThinkUs) * time.Microsecond)
+					os.r.nap(time.Duration(op.ThinkUs) * time.Microsecond)
 				}
-				if os.closing && op.Op != "commit" {
+				if (os.closing || os.r.closing()) && op.Op != "commit" {
+					continue
+				}
+				if os.r.closing() {
 					continue
 				}
 				os.doOp(om, op, a)
@@ -181,7 +184,7 @@ func scenOffsets(r *run) {
 	}
 	early := closeOp != nil && closeOp.N == 1
 	if early {
-		time.Sleep(time.Duration(closeOp.ThinkUs) * time.Microsecond)
+		os.r.nap(time.Duration(closeOp.ThinkUs) * time.Microsecond)
 	} else {
 		wg.Wait()
 		if !c.Config.AutoCommit {
@@ -189,7 +192,7 @@ func scenOffsets(r *run) {
 			os.doOp(om, &cf.Op{Op: "commit"}, 9)
 		}
 		if closeOp != nil && closeOp.ThinkUs > 0 {
-			time.Sleep(time.Duration(closeOp.ThinkUs) * time.Microsecond)
+			os.r.nap(time.Duration(closeOp.ThinkUs) * time.Microsecond)
 		}
 	}
 	os.closing = true
